@@ -47,7 +47,8 @@ func colors(qs []Q) map[string]uint64 {
 		}
 		return t
 	}
-	for round := 0; round < 4; round++ {
+	classes := 0
+	for round := 0; round < len(col)+2; round++ {
 		sig := map[string][]string{}
 		for _, q := range qs {
 			ts := [3]string{q.S, q.O, q.G}
@@ -76,6 +77,14 @@ func colors(qs []Q) map[string]uint64 {
 			next[b] = h64(fmt.Sprintf("%x|%s", col[b], strings.Join(s, "\x01")))
 		}
 		col = next
+		distinct := map[uint64]bool{}
+		for _, c := range col {
+			distinct[c] = true
+		}
+		if len(distinct) == classes && round >= 3 {
+			break
+		}
+		classes = len(distinct)
 	}
 	return col
 }
@@ -132,6 +141,46 @@ func Iso(a, b []Q) (bool, string) {
 		}
 		return ba[i] < ba[j]
 	})
+	// visit blank nodes so that each one (after the first of its component) shares a statement with an earlier one
+	adj := map[string][]string{}
+	for _, q := range a {
+		var bs []string
+		for _, t := range []string{q.S, q.O, q.G} {
+			if IsBlank(t) {
+				bs = append(bs, t)
+			}
+		}
+		for _, x := range bs {
+			for _, y := range bs {
+				if x != y {
+					adj[x] = append(adj[x], y)
+				}
+			}
+		}
+	}
+	{
+		var order []string
+		done := map[string]bool{}
+		for _, start := range ba {
+			if done[start] {
+				continue
+			}
+			queue := []string{start}
+			done[start] = true
+			for len(queue) > 0 {
+				x := queue[0]
+				queue = queue[1:]
+				order = append(order, x)
+				for _, y := range adj[x] {
+					if !done[y] {
+						done[y] = true
+						queue = append(queue, y)
+					}
+				}
+			}
+		}
+		ba = order
+	}
 	m := map[string]string{}
 	used := map[string]bool{}
 	steps := 0
@@ -223,3 +272,21 @@ func Dedup(qs []Q) []Q {
 
 // IsoSets compares as sets (duplicates ignored).
 func IsoSets(a, b []Q) (bool, string) { return Iso(Dedup(a), Dedup(b)) }
+
+// IsoWhy returns "" when a and b are isomorphic (as multisets) or when the bounded search could not decide,
+// and the reason otherwise. Undecided comparisons are counted in Undecided, never reported as failures.
+var Undecided int
+
+func IsoWhy(a, b []Q) string {
+	ok, why := Iso(a, b)
+	if ok {
+		return ""
+	}
+	if why == "undecided" {
+		Undecided++
+		return ""
+	}
+	return why
+}
+
+func IsoSetsWhy(a, b []Q) string { return IsoWhy(Dedup(a), Dedup(b)) }
